@@ -21,6 +21,9 @@ import (
 	"seehuhn.de/go/postscript/funit"
 	"seehuhn.de/go/sfnt"
 	"seehuhn.de/go/sfnt/cmap"
+	"seehuhn.de/go/sfnt/opentype/classdef"
+	"seehuhn.de/go/sfnt/opentype/coverage"
+	"seehuhn.de/go/sfnt/opentype/gdef"
 	"seehuhn.de/go/sfnt/glyph"
 	"seehuhn.de/go/sfnt/header"
 	"seehuhn.de/go/sfnt/kern"
@@ -880,6 +883,332 @@ func layGenXimage(c *Ctx) {
 	c.Stat("ximage.pairs", bucket(len(s.pairs)))
 }
 
+
+// ---------- the whole pipeline with hand-built GSUB/GPOS/GDEF (stream layout.pipeline) ----------
+
+var (
+	layWidthsOnce sync.Once
+	layWidths     []int // Go Regular: funit.Int16(GlyphWidth(gid)) as uint16 pattern
+)
+
+func layBaseWidths() []int {
+	layWidthsOnce.Do(func() {
+		f, err := sfnt.Read(bytes.NewReader(layFontBytes("regular", nil, nil)))
+		if err != nil {
+			panic(err)
+		}
+		layWidths = make([]int, f.NumGlyphs())
+		for g := range layWidths {
+			layWidths[g] = int(uint16(funit.Int16(f.GlyphWidth(glyph.ID(g)))))
+		}
+	})
+	return layWidths
+}
+
+// layTab is one GSUB or GPOS table of a pipeline case.
+type layTab struct {
+	ll    gtab.LookupList // nil = no table
+	find  *layFind        // script list and feature list
+	sw    map[string]bool
+	chose int
+}
+
+func layPayload(ll gtab.LookupList, gd *gdef.Table, gdNil int) (string, bool) {
+	s, ok := shpEncode(&shpCase{ll: ll, gd: gd, gdNil: gdNil})
+	return strings.TrimPrefix(s, "d="), ok
+}
+
+func layTabArgs(pre string, t *layTab, gd *gdef.Table, gdNil int, lang string) (string, bool) {
+	if t.ll == nil {
+		return fmt.Sprintf("%stab=- %schosen=0 %ssw=%s", pre, pre, pre, layShowSw(t.sw)), true
+	}
+	pl, ok := layPayload(t.ll, gd, gdNil)
+	if !ok {
+		return "", false
+	}
+	fa := t.find.args(t.chose) // scripts= feats= nl= sw= lang= chosen=
+	var sc, fe string
+	for _, p := range strings.Split(fa, " ") {
+		if strings.HasPrefix(p, "scripts=") {
+			sc = p[len("scripts="):]
+		}
+		if strings.HasPrefix(p, "feats=") {
+			fe = p[len("feats="):]
+		}
+	}
+	return fmt.Sprintf("%stab=%s %sscripts=%s %sfeats=%s %schosen=%d %ssw=%s", pre, pl, pre, sc, pre, fe, pre, t.chose, pre, layShowSw(t.sw)), true
+}
+
+// layTabInfo rebuilds the gtab.Info of one table from the case line.
+func layTabInfo(f Fields, pre string) *gtab.Info {
+	if f[pre+"tab"] == "-" {
+		return nil
+	}
+	c := shpDecode(Fields{"d": f[pre+"tab"]})
+	fc := layParseFind(Fields{"scripts": f[pre+"scripts"], "feats": f[pre+"feats"], "nl": fmt.Sprint(len(c.ll)), "sw": "nil", "lang": "und"})
+	info := fc.info()
+	info.LookupList = c.ll
+	return info
+}
+
+func layParseTexts(s string) [][]rune {
+	var out [][]rune
+	for _, t := range strings.Split(s, ";") {
+		out = append(out, layRunes(strings.ReplaceAll(t, ".", ",")))
+	}
+	return out
+}
+
+func layRunPipeline(f Fields) string {
+	font, err := sfnt.Read(bytes.NewReader(layFontBytes("regular", nil, nil)))
+	if err != nil {
+		return errKind(err)
+	}
+	cm := layParseCm(f["map"])
+	if cm == nil {
+		cm = map[uint16]glyph.ID{}
+	}
+	font.CMapTable = cmap.Table{{PlatformID: 3, EncodingID: 1}: cmap.Format4(cm).Encode(0)}
+	font.Gsub = layTabInfo(f, "g")
+	font.Gpos = layTabInfo(f, "p")
+	font.Gdef = nil
+	if f["gdef"] != "-" {
+		font.Gdef = shpDecode(Fields{"d": f["gdef"]}).gd
+	}
+	lay, err := font.NewLayouter(language.MustParse(f["lang"]), layParseSw(f["gsw"]), layParseSw(f["psw"]))
+	if err != nil {
+		return "err:layouter"
+	}
+	var parts []string
+	for _, t := range layParseTexts(f["texts"]) {
+		out := guard(func() string { return shpShowSeq(lay.Layout(string(t))) })
+		if strings.HasPrefix(out, "panic:") {
+			parts = append(parts, "panic")
+			break
+		}
+		parts = append(parts, out)
+	}
+	return strings.Join(parts, "|")
+}
+
+var layPipeTags = []string{"liga", "kern", "calt", "ccmp", "mark", "mkmk", "smcp", "locl", "clig", "ss01"}
+
+// layGenFeatures draws script and feature lists over the lookups of ll.
+func layGenFeatures(r *Rng, ll gtab.LookupList, defaults map[string]bool) *layFind {
+	fc := &layFind{langs: map[string]*gtab.Features{}, nl: len(ll)}
+	nFeat := r.Range(1, 4)
+	for j := 0; j < nFeat; j++ {
+		ft := &gtab.Feature{Tag: Pick(r, layPipeTags)}
+		if r.Chance(1, 2) { // a tag of the default set
+			keys := make([]string, 0, len(defaults))
+			for k := range defaults {
+				keys = append(keys, k)
+			}
+			sort.Strings(keys)
+			ft.Tag = Pick(r, keys)
+		}
+		for k := r.Range(1, 3); k > 0; k-- {
+			l := r.Intn(len(ll) + 1)
+			if r.Chance(9, 10) && len(ll) > 0 {
+				l = r.Intn(len(ll))
+			}
+			ft.Lookups = append(ft.Lookups, gtab.LookupIndex(l))
+		}
+		fc.feats = append(fc.feats, ft)
+	}
+	seen := map[string]bool{}
+	for n := r.Range(1, 3); len(fc.tags) < n; {
+		t := Pick(r, layScriptTags)
+		if seen[t] {
+			continue
+		}
+		seen[t] = true
+		fc.tags = append(fc.tags, t)
+		ft := &gtab.Features{Required: 0xFFFF}
+		if r.Chance(1, 4) {
+			ft.Required = gtab.FeatureIndex(r.Intn(nFeat))
+		}
+		for k := r.Range(1, 4); k > 0; k-- {
+			ft.Optional = append(ft.Optional, gtab.FeatureIndex(r.Intn(nFeat+1)))
+		}
+		fc.langs[t] = ft
+	}
+	sort.Strings(fc.tags)
+	return fc
+}
+
+func layGenSwitch(r *Rng, fc *layFind) map[string]bool {
+	switch r.Intn(5) {
+	case 0, 1:
+		return nil
+	case 2:
+		return map[string]bool{}
+	}
+	m := map[string]bool{}
+	for _, ft := range fc.feats {
+		if r.Chance(3, 4) {
+			m[ft.Tag] = r.Chance(2, 3)
+		}
+	}
+	return m
+}
+
+// layPipeScenario: hand-built tables for one clause each: single adjustment on a lone glyph, single
+// adjustment format 2, a kerning pair, single substitution, ligature; feature on or off.
+func layPipeScenario(r *Rng, which int, on bool) (gsub, gpos *layTab, name string) {
+	const A, B, C, L = 1, 2, 3, 8
+	lt := func(st gtab.Subtable, tp uint16) gtab.LookupList {
+		return gtab.LookupList{{Meta: &gtab.LookupMetaInfo{LookupType: tp}, Subtables: []gtab.Subtable{st}}}
+	}
+	mk := func(ll gtab.LookupList, tag string) *layTab {
+		fc := &layFind{langs: map[string]*gtab.Features{"und-Zzzz-x-dflt": {Required: 0xFFFF, Optional: []gtab.FeatureIndex{0}}},
+			tags: []string{"und-Zzzz-x-dflt"}, feats: []*gtab.Feature{{Tag: tag, Lookups: []gtab.LookupIndex{0}}}, nl: len(ll)}
+		t := &layTab{ll: ll, find: fc}
+		switch {
+		case !on:
+			t.sw = map[string]bool{tag: false}
+		case r.Bool():
+			t.sw = map[string]bool{tag: true}
+		}
+		return t
+	}
+	v := &gtab.GposValueRecord{XAdvance: funit.Int16(r.Range(-200, 200)), XPlacement: funit.Int16(r.Range(-20, 20))}
+	switch which {
+	case 0:
+		return &layTab{}, mk(lt(&gtab.Gpos1_1{Cov: coverage.Table{A: 0, B: 1}, Adjust: v}, 1), "kern"), "gpos 1.1"
+	case 1:
+		return &layTab{}, mk(lt(&gtab.Gpos1_2{Cov: coverage.Table{A: 0, C: 1}, Adjust: []*gtab.GposValueRecord{v, {XAdvance: 77}}}, 1), "kern"), "gpos 1.2"
+	case 2:
+		return &layTab{}, mk(lt(gtab.Gpos2_1{{Left: A, Right: B}: {First: v}, {Left: B, Right: B}: {First: v, Second: &gtab.GposValueRecord{XAdvance: -5}}}, 2), "kern"), "gpos 2.1"
+	case 3:
+		return mk(lt(&gtab.Gsub1_1{Cov: coverage.Set{A: true, B: true}, Delta: glyph.ID(r.Range(1, 5))}, 1), "liga"), &layTab{}, "gsub 1.1"
+	case 4:
+		return mk(lt(&gtab.Gsub4_1{Cov: coverage.Table{A: 0}, Repl: [][]gtab.Ligature{{{In: []glyph.ID{B, C}, Out: L}, {In: []glyph.ID{B}, Out: L + 1}}}}, 4), "liga"), &layTab{}, "gsub 4.1"
+	default: // GSUB produces the glyph GPOS adjusts
+		g := mk(lt(&gtab.Gsub4_1{Cov: coverage.Table{A: 0}, Repl: [][]gtab.Ligature{{{In: []glyph.ID{B}, Out: L}}}}, 4), "liga")
+		p := mk(lt(&gtab.Gpos1_1{Cov: coverage.Table{L: 0}, Adjust: v}, 1), "kern")
+		return g, p, "gsub 4.1 then gpos 1.1"
+	}
+}
+
+func layGenPipe(c *Ctx, i int) {
+	r := c.Rng
+	g := &shpGen{r: r, c: c}
+	gd, gdNil := g.gdef()
+	if gd != nil {
+		g.nsets = len(gd.MarkGlyphSets)
+	}
+	var gsub, gpos *layTab
+	kind := "generated"
+	if i%3 == 0 {
+		on := r.Chance(2, 3)
+		gsub, gpos, kind = layPipeScenario(r, (i/3)%6, on)
+		if on {
+			kind += " (feature on)"
+		} else {
+			kind += " (feature off)"
+		}
+		if r.Bool() { // marks in the way: class 3 for two of the letters
+			gd, gdNil = &gdef.Table{GlyphClass: classdef.Table{10: gdef.GlyphClassMark, 3: gdef.GlyphClassMark}}, 0
+		}
+	} else {
+		gsub, gpos = &layTab{}, &layTab{}
+		if r.Chance(3, 4) {
+			g.gpos = false
+			gsub.ll = g.lookupList(Pick(r, [][]int{shpSimpleKinds, shpSimpleKinds, shpGsubKinds}))
+			gsub.find = layGenFeatures(r, gsub.ll, gtab.GsubDefaultFeatures)
+			gsub.sw = layGenSwitch(r, gsub.find)
+		}
+		if r.Chance(3, 4) {
+			g.gpos = true
+			gpos.ll = g.lookupList(Pick(r, [][]int{{101, 102, 103}, {101, 102, 103, 104}, shpGposKinds}))
+			gpos.find = layGenFeatures(r, gpos.ll, gtab.GposDefaultFeatures)
+			gpos.sw = layGenSwitch(r, gpos.find)
+		}
+	}
+	lang := Pick(r, layAskTags)
+	for _, t := range []*layTab{gsub, gpos} {
+		if t.ll != nil {
+			t.chose = layChosen(t.find.tags, lang)
+		}
+	}
+	// cmap: 'a'+k -> glyph k+1 (the alphabet of area shape), a few characters unmapped
+	cm := map[uint16]glyph.ID{}
+	for k := 0; k < shpMaxGid; k++ {
+		if !r.Chance(1, 15) {
+			cm[uint16('a'+k)] = glyph.ID(k + 1)
+		}
+	}
+	// history of strings: lengths 0, 1, 2, n
+	var texts []string
+	nTexts := Pick(r, []int{1, 1, 2, 3, 4})
+	runes := 0
+	for k := 0; k < nTexts; k++ {
+		n := Pick(r, []int{0, 1, 1, 1, 2, 2, 3, 5, 9, 20})
+		t := make([]string, n)
+		for j := range t {
+			x := 'a' + rune(r.Intn(6))
+			if r.Chance(1, 4) {
+				x = 'a' + rune(r.Intn(shpMaxGid+2))
+			}
+			t[j] = fmt.Sprint(int(x))
+		}
+		if i%3 == 0 && k == 0 && r.Bool() { // scenario tables: the lone glyph, the pair, the ligature input
+			t = Pick(r, [][]string{{"97"}, {"97"}, {"98"}, {"97", "98"}, {"97", "98", "99"}, {"104"}})
+			n = len(t)
+		}
+		texts = append(texts, strings.Join(t, "."))
+		runes += n
+		c.Stat("pipeline.string_length", map[bool]string{true: fmt.Sprint(n), false: bucket(n)}[n <= 2])
+	}
+	ga, ok1 := layTabArgs("g", gsub, gd, gdNil, lang)
+	pa, ok2 := layTabArgs("p", gpos, gd, gdNil, lang)
+	gdArg, ok3 := layPayload(nil, gd, gdNil)
+	if !ok1 || !ok2 || !ok3 {
+		c.Stat("pipeline.skipped", "not representable")
+		return
+	}
+	head := fmt.Sprintf("%s %s gdef=%s lang=%s ng=%d map=%s texts=%s", ga, pa, gdArg,
+		lang, len(layBaseWidths()), layShowCm(cm), strings.Join(texts, ";"))
+	// widths (inputs of the model): glyphs 0..31 and every glyph of the real output
+	first := Exec("layout.pipeline " + head + " w=")
+	gset := map[int]bool{}
+	for g := 0; g < 32; g++ {
+		gset[g] = true
+	}
+	for _, call := range strings.Split(first, "|") {
+		for _, gl := range strings.Split(strings.TrimPrefix(call, "ok:"), ",") {
+			var x int
+			if _, err := fmt.Sscanf(gl, "%d/", &x); err == nil {
+				gset[x] = true
+			}
+		}
+	}
+	var gk []int
+	for x := range gset {
+		if x < len(layBaseWidths()) {
+			gk = append(gk, x)
+		}
+	}
+	sort.Ints(gk)
+	wp := make([]string, len(gk))
+	for j, x := range gk {
+		wp[j] = fmt.Sprintf("%d:%d", x, layBaseWidths()[x])
+	}
+	out := c.Case(Direct, "layout.pipeline", head+" w="+strings.Join(wp, ","), runes > 0)
+	c.Stat("pipeline.tables", kind)
+	c.Stat("pipeline.gsub", map[bool]string{true: "nil", false: "present"}[gsub.ll == nil])
+	c.Stat("pipeline.gpos", map[bool]string{true: "nil", false: "present"}[gpos.ll == nil])
+	c.Stat("pipeline.gdef", map[bool]string{true: "nil", false: "present"}[gd == nil])
+	c.Stat("pipeline.calls", fmt.Sprint(nTexts))
+	switch {
+	case strings.Contains(out, "panic"):
+		c.Stat("pipeline.outcome", "panic")
+	default:
+		c.Stat("pipeline.outcome", "ok")
+	}
+}
+
 func areaLayout(c *Ctx) {
 	nFind := c.N / 2
 	nKern := c.N / 5
@@ -899,6 +1228,9 @@ func areaLayout(c *Ctx) {
 	}
 	for i := 0; i < c.N/20; i++ {
 		layGenXimage(c)
+	}
+	for i := 0; i < c.N/4; i++ {
+		layGenPipe(c, i)
 	}
 }
 
@@ -1028,4 +1360,5 @@ func init() {
 		}))
 	}
 	ops["layout.trivial"] = func(f Fields) string { return "ok" }
+	ops["layout.pipeline"] = func(f Fields) string { return canonPanic(guard(func() string { return layRunPipeline(f) })) }
 }
